@@ -433,3 +433,47 @@ def receive_anchor(model: Model):
     if not builds_reader(fi):
         raise AnalysisError("LDAPSession.receive does not set up the reader itself (it delegates its whole body to another method): the rules anchored on receive do not apply")
     return fi
+
+
+def lemma_consuming_methods_advance(model: Model, run: Run, rule: str = "L11-consuming-methods-advance") -> None:
+    """L11: every ASN1Reader method that consumes (read_*, skip_value) re-binds the reader's view on every path that returns -
+    directly or through another method of the reader that does.  A path that returns with the view untouched leaves the
+    reader where it was: every `while reader: ... reader.skip_value(h)` loop that relies on it spins forever on the input
+    that takes that path."""
+    from .props.c07 import must_pass
+    rd = model.cls(READER)
+    # the attribute that holds the view: what peek_header / __bool__ read
+    views = {norm(x) for m in rd.methods.values() if m.name in ("__bool__", "__len__", "peek_header") for x in ast.walk(m.node)
+             if isinstance(x, ast.Attribute) and isinstance(x.value, ast.Name) and x.value.id == "self"}
+    if not views:
+        raise AnalysisError("ASN1Reader: the attribute holding the remaining input was not identified")
+    memo = {}
+
+    def advances(m) -> bool:
+        if m.qualname in memo:
+            return memo[m.qualname]
+        memo[m.qualname] = False
+
+        def hit(x) -> bool:
+            if isinstance(x, (ast.Assign, ast.AugAssign, ast.AnnAssign)):
+                tg = x.targets if isinstance(x, ast.Assign) else [x.target]
+                if any(norm(t_) in views for t_ in tg):
+                    return True
+            if isinstance(x, ast.Call) and isinstance(x.func, ast.Attribute) and isinstance(x.func.value, ast.Name) and x.func.value.id == "self":
+                sub = rd.methods.get(x.func.attr)
+                if sub is not None and sub is not m and not isinstance(sub.node, ast.Lambda) and advances(sub):
+                    return True
+            return False
+        memo[m.qualname] = must_pass(m.node.body, hit)
+        return memo[m.qualname]
+    n = 0
+    for name, m in sorted(rd.methods.items()):
+        if not (name.startswith("read_") or name == "skip_value") or isinstance(m.node, ast.Lambda):
+            continue
+        n += 1
+        ok = advances(m)
+        run.ob(rule, ok, {"method": name})
+        if not ok:
+            run.fail(Finding(rule, m.qualname, f"{name}|path-without-advance", f"ASN1Reader.{name} can return without re-binding the view it reads from: the value it was asked to consume "
+                             "is still at the front of the reader, and a decode loop that relies on the call to make progress does not terminate", model.loc(m.module, m.node)))
+    run.floor("consuming reader methods", n, 6)
